@@ -63,6 +63,7 @@ MOD = {
              "fast_packetParse_eq", "fast_kindParse_eq"],
     "CompoundE2E": ["member_refines", "member_accepted", "compound_end_to_end"],
     "NestedE2E": ["node_image", "tree_refines", "tree_leaves_accepted", "nested_end_to_end"],
+    "Written": ["writeInto_ok_inv", "member_written", "sr_written", "rr_written", "bye_written", "app_written"],
     "FastWrite": ["fast_writerVia_eq", "fast_sdesWriter_eq", "fast_chunkWriter_eq", "fast_chunkRun_eq"],
     "EndToEnd": ["fb_nack_end_to_end", "fb_fir_end_to_end", "fb_sli_end_to_end", "fb_rpsi_end_to_end", "fb_pli_end_to_end",
                  "fci_err_truthful", "parseFci_err_truthful", "packet_err_truthful", "packet_pad_transparent",
@@ -81,11 +82,11 @@ OBLIGATIONS = {
     "C01": MOD["Total"] + ["checkPacket_no_panic", "parsers_no_panic", "sdes_parse_no_panic", "fci_parsers_no_panic",
                            "compound_parse_no_panic", "compound_iter", "compound_fused", "item_accessors", "chunk_length",
                            "nack_entries_eq", "fir_entries_eq", "sli_entries_eq", "tiling_length_le", "sdes_sizes_bounded"] + MOD_FAST,
-    "C02": ["rb_roundtrip", "sr_roundtrip", "rr_roundtrip", "rb_refines", "sr_refines", "rr_refines", "written_eq_image",
+    "C02": ["sr_written", "rr_written", "writeInto_ok_inv", "rb_roundtrip", "sr_roundtrip", "rr_roundtrip", "rb_refines", "sr_refines", "rr_refines", "written_eq_image",
             "writeInto_ok", "rb_rules", "sr_rules", "rr_rules"],
     "C03": ["sdes_roundtrip", "refTok_encode", "item_refines", "chunk_refines", "sdes_refines", "written_eq_image",
             "writeInto_ok", "sdes_rules", "item_rules", "chunk_rules", "item_accessors"] + MOD["FastWrite"],
-    "C04": ["bye_roundtrip", "app_roundtrip", "bye_refines", "app_refines", "written_eq_image", "writeInto_ok",
+    "C04": ["bye_written", "app_written", "writeInto_ok_inv", "bye_roundtrip", "app_roundtrip", "bye_refines", "app_refines", "written_eq_image", "writeInto_ok",
             "bye_rules", "app_rules"],
     "C05": ["fb_roundtrip", "fb_refines", "nack_roundtrip", "fir_roundtrip", "sli_roundtrip", "rpsi_roundtrip",
             "fir_upsert_lookup", "fir_upsert_keys_unique", "nack_entries_eq", "fir_entries_eq", "sli_entries_eq",
@@ -117,7 +118,7 @@ OBLIGATIONS = {
             "pli_parse_ok_iff", "fir_parse_ok_iff", "sli_parse_ok_iff", "nack_parse_ok", "fci_parsers_no_panic",
             "fast_nack_eq", "fast_fir_eq", "fast_sli_eq"],
     "C16": RULES + ["compound_accept_iff", "sizes_bounded", "checkPadding_ok_iff"],
-    "C17": REFINES + ["prefill_independent", "tail_untouched", "failed_write_untouched", "writeInto_err",
+    "C17": REFINES + ["writeInto_ok_inv", "member_written", "prefill_independent", "tail_untouched", "failed_write_untouched", "writeInto_err",
                       "writeInto_short", "write_again", "write_unchecked_exact"],
     "C18": ["checkPacket_err_truthful", "checkPacket_short", "checkPacket_length_mismatch", "sr_err_truthful",
             "rr_err_truthful", "bye_err_truthful", "app_err_truthful", "fb_err_truthful", "unknown_err_truthful",
